@@ -19,10 +19,10 @@ def drive(tier):
     from bitcoin.core import CBlock
     R = Recorder()
     r = vlib.rng("c15")
-    counts = list(range(1, 21)) + [31, 32, 33, 63, 64, 65] if tier == "quick" else list(range(1, 71)) + [127, 128, 129, 255, 256, 257]
+    counts = list(range(1, 21)) + [31, 32, 33, 63, 64, 65, 252, 253] if tier == "quick" else list(range(1, 71)) + [127, 128, 129, 255, 256, 257]
     for n in counts:
         for variant in ("plain", "witness", "dups"):
-            if tier == "quick" and n > 33 and variant != "witness":
+            if tier == "quick" and n > 33 and variant != ("witness" if n < 200 else "plain"):
                 continue
             txs = [small_tx(r, variant == "witness" and (i == 0 or r.random() < 0.5)) for i in range(n)]
             if variant == "witness" and n > 1:
